@@ -1,6 +1,7 @@
 /-
 C10 — Multipart reassembly delivers each message once, complete and unmixed.
 -/
+import Smpp.Properties.SrcCombine
 import Smpp.Proofs.CombinerProofs
 import Smpp.Generated.PduFacts
 
